@@ -215,7 +215,18 @@ func (s *Style) Lit(v model.Val) string {
 	if v.T == "b" {
 		return s.Bool(v.B)
 	}
+	if v.T == "i" && v.I >= 0 {
+		return s.Num(int(v.I))
+	}
 	return v.SQL()
+}
+
+// Num renders a non-negative integer, now and then with leading zeros (still decimal).
+func (s *Style) Num(n int) string {
+	if s.t != nil && rapid.IntRange(0, 9).Draw(s.t, "zeropad") == 0 {
+		return strings.Repeat("0", rapid.IntRange(1, 3).Draw(s.t, "zeros")) + fmt.Sprint(n)
+	}
+	return fmt.Sprint(n)
 }
 
 func (s *Style) End() string {
@@ -264,7 +275,7 @@ func RenderStmt(st *Style, s model.Stmt) string {
 			sb.WriteString(st.ID(c.Name) + st.SP())
 			switch c.Type {
 			case model.TVarchar:
-				sb.WriteString(st.KW("VARCHAR") + st.OSP() + "(" + st.OSP() + fmt.Sprint(c.Len) + st.OSP() + ")")
+				sb.WriteString(st.KW("VARCHAR") + st.OSP() + "(" + st.OSP() + st.Num(c.Len) + st.OSP() + ")")
 			case model.TInt:
 				sb.WriteString(st.KW("INT"))
 			case model.TBigInt:
